@@ -74,6 +74,12 @@ def _attr_value(rng, name):
     raise ValueError(name)
 
 
+SHARED_KINDS = ["td_system", "control", "bath_two_dt", "gibbs_pair",
+                "pt_in_tebd", "parameters", "chain_control", "param_table",
+                "open_params", "guess_parameters", "td_interleaved",
+                "param_system_two_dt", "bath_dynamics"]
+
+
 def gen_corr(rng):
     kind = _pick(rng, ["powerlaw", "customsd", "customcorr"], [5, 3, 1])
     if kind == "powerlaw":
@@ -91,24 +97,26 @@ def gen_case(rng, tier="quick"):
     kind, vals = gen_corr(rng)
     ops.append(["new_corr", kind, vals])
     n = rng.randrange(4, 11)
+    kinds = ["new_corr", "set_attr", "eval", "new_bath",
+             "bath_eval", "scribble_bath", "tempo", "pt",
+             "dynamics", "gradient", "tebd", "mutate_after",
+             "fault_then", "system_use", "probe", "shared"]
+    weights = [1, 5, 6, 4, 4, 1, 2, 2, 3, 1, 2, 2, 1, 5, 4, 5]
+    shared_kinds = list(SHARED_KINDS)
+    if rng.random() < 0.5:
+        # swarm: this history uses only some of the operation kinds, so
+        # the same few objects are used again and again
+        mask = [rng.random() < 0.35 for _ in kinds]
+        if sum(mask) < 2:
+            for i in rng.sample(range(len(kinds)), 2):
+                mask[i] = True
+        weights = [w + 1 if m else 0 for w, m in zip(weights, mask)]
+        shared_kinds = rng.sample(shared_kinds, rng.randrange(1, 4))
     for _ in range(n):
-        k = _pick(rng, ["new_corr", "set_attr", "eval", "new_bath",
-                        "bath_eval", "scribble_bath", "tempo", "pt",
-                        "dynamics", "gradient", "tebd", "mutate_after",
-                        "fault_then", "system_use", "probe", "shared"],
-                  [1, 5, 6, 4, 4, 1, 2, 2, 3, 1, 2, 2, 1, 5, 4, 5])
+        k = _pick(rng, kinds, weights)
         if k == "shared":
             # long-lived shared objects used again with other arguments
-            ops.append(["shared", _pick(rng, ["td_system", "control",
-                                              "bath_two_dt", "gibbs_pair",
-                                              "pt_in_tebd", "parameters",
-                                              "chain_control",
-                                              "param_table",
-                                              "open_params",
-                                              "guess_parameters",
-                                              "td_interleaved",
-                                              "param_system_two_dt",
-                                              "bath_dynamics"]),
+            ops.append(["shared", _pick(rng, shared_kinds),
                         rng.randrange(3), rng.randrange(1, 4)])
             continue
         if k == "new_corr":
